@@ -1,7 +1,9 @@
 // routedrv: conformance driver for pkg/routetab.
-//   par.kind = "table": C27, one route table (table.go)
-//   par.kind = "net":   C28, several real routetab.Service instances joined by a
-//                       queueing streamer; TLC-generated schedules are forced (net.go)
+//
+//	par.kind = "table": C27, one route table (table.go)
+//	par.kind = "net":   C28, several real routetab.Service instances joined by a
+//	                    queueing streamer; TLC-generated schedules are forced (net.go)
+//
 // The driver holds no oracle; RouteTableTrace.tla / RouteDiscoveryTrace.tla judge the log.
 package main
 
